@@ -32,6 +32,10 @@ class _Gen:
             return ["err"]
         if r < self.p_exn + self.p_err + 0.10:
             return ["null"]
+        if r < self.p_exn + self.p_err + 0.17:
+            return ["snull"]                       # custom scalar value that serialises to null
+        if self.p_exn and r < self.p_exn + self.p_err + 0.20:
+            return ["sbad", self.rng.randint(10, 19)]  # serialisation raises
         return ["int", self.rng.randint(-3, 40)]
 
     def field(self, depth):
@@ -58,6 +62,10 @@ class _Gen:
         inn = rng.random() < 0.4
         n = rng.choice([0, 1, 2, 2, 3])
         if rng.random() < 0.4:
+            if rng.random() < 0.3:
+                items = [["null"] if rng.random() < 0.2 else ["snull"] if rng.random() < 0.4
+                         else ["int", rng.randint(0, 9)] for _ in range(n)]
+                return ["list", inn, "sc", items]
             items = [["null"] if rng.random() < 0.25 else ["int", rng.randint(0, 9)] for _ in range(n)]
             return ["list", inn, "int", items]
         template = self.fields(depth, rng.randint(1, 2))
@@ -74,8 +82,11 @@ class _Gen:
         out = []
         for f in fields:
             g = copy.deepcopy(f)
-            if g["b"][0] in ("int", "null", "err", "exn") and g.get("sh", "i") in ("i", "in"):
+            if g["b"][0] in ("int", "null", "err", "exn") and g.get("sh", "i") in ("i", "in") \
+                    and g["b"][0] not in ("snull", "sbad"):
                 g["b"] = self.leaf_body()
+                while g["b"][0] in ("snull", "sbad"):   # the field (hence its type) is fixed by the template
+                    g["b"] = self.leaf_body()
                 if g["b"][0] != "int":
                     g["sh"] = "in" if g["nn"] else "i"
                 else:
@@ -110,7 +121,8 @@ def n_tasks(program, config):
 
 
 def has_exn(program):
-    return '"exn"' in __import__("json").dumps(program)
+    d = __import__("json").dumps(program)
+    return '"exn"' in d or '"sbad"' in d
 
 
 def gen_program(rng, op, min_tasks=1, max_tasks=6, p_exn=0.0, p_err=0.12, p_lv=0.15,
